@@ -1,4 +1,5 @@
 import Emg3dVerif.Model.IoTree
+import Emg3dVerif.Model.JsonKey
 open IoT
 
 /-! Line protocol for the io tree model.  Tokens: `(` … `)` dictionary of `K<key> <tree>` pairs,
@@ -106,8 +107,29 @@ partial def entries : List String → Option (List (Key × Leaf))
     else none
   | _ => none
 
+/-- strings as dot-separated code points (`-` = empty) -/
+def hexOf (s : List Char) : String :=
+  if s.isEmpty then "-" else ".".intercalate (s.map fun c => toString c.toNat)
+def ofHex (w : String) : Option (List Char) :=
+  if w == "-" then some [] else (w.splitOn ".").mapM fun t => do
+    let n ← t.toNat?
+    some (Char.ofNat n)
+
 def handle (ws : List String) : Option String :=
   match ws with
+  | ["io", "jkey", k, c, d] => do
+    -- flagged key, and what is recovered from it
+    let k ← ofHex k
+    let arr ← (if d == "none" then some none else (ofHex d).map some)
+    let fk := JKey.flagKey k (c == "1") arr
+    let r := JKey.unflagKey fk
+    some (hexOf fk ++ " " ++ hexOf r.1 ++ " " ++ (if r.2.1 then "1" else "0") ++ " " ++
+      (match r.2.2 with | some a => hexOf a | none => "none"))
+  | ["io", "junflag", k] => do
+    let k ← ofHex k
+    let r := JKey.unflagKey k
+    some (hexOf r.1 ++ " " ++ (if r.2.1 then "1" else "0") ++ " " ++
+      (match r.2.2 with | some a => hexOf a | none => "none"))
   | "io" :: "ser" :: r => do
     let f ← forestOf r
     some (showTree (.node (serF f)))
